@@ -17,7 +17,7 @@ RULE = ('Random well-nested write histories: 1-3 interchanges x 0-3 groups x 0-3
 ASSUMPTIONS = ['a sibling header while a loop of the same level is still open is outside the property\'s domain and not generated',
                'data contains none of the writer\'s delimiters; about a tenth of the histories re-use a control number within its scope: counts and trailers must still be true, only the duplicate-id finding itself is then ignored on re-reading',
                'check_837_lx (LX renumbering) left at its default']
-REQUIRED_COUNTERS = ['runs:control-number-with-foreign-delimiter', 'trailers:wrong:earlier-sibling-id', 'histories', 'runs', 'runs:cut', 'runs:control-number-reused', 'trailers:omitted', 'trailers:wrong', 'reader-rechecks', 'isa:00501', 'isa:00401']
+REQUIRED_COUNTERS = ['runs:writer-used-again-after-Close', 'runs:control-number-with-foreign-delimiter', 'trailers:wrong:earlier-sibling-id', 'histories', 'runs', 'runs:cut', 'runs:control-number-reused', 'trailers:omitted', 'trailers:wrong', 'reader-rechecks', 'isa:00501', 'isa:00401']
 MIN_CASES = {'quick': 4000, 'thorough': 1500000}
 
 TERMS = [('~', '*', ':', '^', '\n'), ('!', '|', '>', '^', ''), ('\x1c', '\x1d', '<', '\x1f', '\r\n'), ('\n', '*', ':', '^', ''), ('~', '*', '\\', '^', '\n'),
@@ -67,6 +67,13 @@ def gen(rng):
                 se_close = rng.choice(['own', 'own', 'wrong', 'omit']) if last_t else rng.choice(['own', 'own', 'wrong'])
                 ev.append(('close', 'ST', se_close, rng))
             ev.append(('close', 'GS', ge_close, rng))
+        if not last_isa and rng.random() < 0.2:
+            # the writer is used again after Close(): whatever was open (also GS / ST left open below, if their own closing was the last thing
+            # omitted) is closed by that call, and the next interchange starts from scratch
+            isa_close = rng.choice(['omit', 'omit', 'own'])
+            ev.append(('close', 'ISA', isa_close, rng))
+            ev.append(('Close', None, None, None))
+            continue
         ev.append(('close', 'ISA', isa_close, rng))
         if isa_close == 'omit':
             break
@@ -156,6 +163,10 @@ def play(ctx, ev, cut, terms, meta):
                 want.append(fmt(sid, els, st, et, sb))
                 stack[-1][2] += 1      # one more group in the interchange / set in the group
                 stack.append([lv, cid, 1 if lv == 'ST' else 0])
+        elif e[0] == 'Close':
+            w.Close()
+            close_model(None)
+            info['closed_midway'] = info.get('closed_midway', 0) + 1
         elif e[0] == 'body':
             w.Write(S.Segment(e[1], '~', '*', ':'))
             sid, els = norm_seg(e[1])
@@ -250,6 +261,8 @@ def one(ctx, ev, cut, terms, meta):
         return None
     ctx.count('trailers:omitted', info['omitted'])
     ctx.count('trailers:wrong', info['wrong'])
+    if info.get('closed_midway'):
+        ctx.count('runs:writer-used-again-after-Close')
     if info.get('punctuated'):
         ctx.count('runs:control-number-with-foreign-delimiter')
     ctx.count('trailers:wrong:earlier-sibling-id', info.get('wrong:earlier-sibling-id', 0))
